@@ -393,7 +393,7 @@ class TreeBuilder(object):
         # XXX td, th and tr are not actually needed
         # (a loop rather than recursion: the stack may hold thousands of
         # these elements)
-        while (name in frozenset(("dd", "dt", "li", "option", "optgroup", "p", "rp", "rt")) and
+        while (name in frozenset(("dd", "dt", "li", "option", "optgroup", "p", "rb", "rp", "rt", "rtc")) and
                 name != exclude):
             self.openElements.pop()
             # XXX This is not entirely what the specification says. We should
